@@ -789,6 +789,12 @@ class _Run:
                 return sym.unwrap(a0)
             if name in MAPERR:
                 return a0
+            if name in ("std::option::Option::unwrap_or", "std::result::Result::unwrap_or") and len(args) == 2 and tag(a0) == "agg":
+                # decided at the call site: Some(x)/Ok(x) -> x, None/Err -> the default
+                if payload(a0)[1] in ("Some", "Ok") and kids(a0):
+                    return kids(a0)[0]
+                if payload(a0)[1] in ("None", "Err"):
+                    return args[1]
             if name == "std::ops::Try::branch":
                 return mk("try", (), (a0,))
             if name == "std::ops::FromResidual::from_residual":
